@@ -351,7 +351,22 @@ func isBareField(n *Node, k string) bool { return n.K == k }
 // KeyAtom draws an atom that constrains the key by a literal (literal on
 // either side): the shapes the scan-range optimizer reasons about.
 func (c *GenCtx) KeyAtom(t *rapid.T) *Node {
-	lit := func() *Node { return Str(c.textLiteral(t)) }
+	lit := func() *Node {
+		s := c.textLiteral(t)
+		if len(s) >= 2 && rapid.IntRange(0, 7).Draw(t, "litAsConstExpr") == 0 {
+			// a constant expression that folds to the literal before planning
+			cut := rapid.IntRange(1, len(s)-1).Draw(t, "litCut")
+			if _, ok := Quote(s[:cut]); ok {
+				if _, ok := Quote(s[cut:]); ok {
+					return Bin("+", Str(s[:cut]), Str(s[cut:]))
+				}
+			}
+		}
+		if isASCIILower(s) && rapid.IntRange(0, 15).Draw(t, "litAsConstCall") == 0 {
+			return Call("lower", Str(asciiUpper(s)))
+		}
+		return Str(s)
+	}
 	switch rapid.IntRange(0, 9).Draw(t, "keyAtom") {
 	case 0, 1, 2, 3:
 		op := rapid.SampledFrom([]string{"=", "!=", "<", "<=", ">", ">="}).Draw(t, "keyCmpOp")
@@ -624,4 +639,16 @@ func (c *GenCtx) exoticVec(t *rapid.T) *Node {
 	default:
 		return Call("list", c.fieldOrLit(t), Int(2))
 	}
+}
+
+func isASCIILower(s string) bool {
+	if s == "" {
+		return false
+	}
+	for i := 0; i < len(s); i++ {
+		if s[i] < 'a' || s[i] > 'z' {
+			return false
+		}
+	}
+	return true
 }
